@@ -1,7 +1,6 @@
 from dataclasses import Field
 from dataclasses import fields
 from typing import IO
-from typing import Final
 from typing import Literal
 from typing import TypeVar
 from typing import assert_never
@@ -21,6 +20,7 @@ from ._introspect import get_field_tag
 from ._introspect import get_schema_field_type
 from ._introspect import is_optional
 from ._shared import NullableEntityMarker
+from ._shared import types_without_null_form
 from .readers import read_int8
 
 
@@ -85,24 +85,6 @@ def get_reader(
 
 
 T = TypeVar("T")
-
-types_without_null_form: Final = frozenset(
-    {
-        "int8",
-        "int16",
-        "int32",
-        "int64",
-        "uint8",
-        "uint16",
-        "uint32",
-        "uint64",
-        "float64",
-        "bool",
-        "error_code",
-        "timedelta_i32",
-        "timedelta_i64",
-    }
-)
 
 
 def get_field_reader(
